@@ -212,7 +212,7 @@ def run(chk, tier, prop):
         for k in range(n // 5):
             cases.append(loop_gen.gen_ties_case(rng))
     if prop in ("C03", "C09", "C10"):
-        for k in range(n // 3):
+        for k in range(n // 3 if prop == "C09" else n):
             cases.append(loop_gen.gen_nested_case(rng, prop))
     kept, impl = [], []
     for c in cases:
